@@ -80,14 +80,19 @@ func (st *c04State) judgeHTTP(requests *int64) (kind, why string) {
 			}
 		}
 	}
-	pits := []*ledger.Time{nil, {Time: c04T1.Time}}
+	// without a pit parameter the v2 API reads as of the wall clock (v1: no point in time at all)
+	wall := ledger.Now()
+	pits := []*ledger.Time{nil, {Time: c04T1.Time}, {Time: c04T2.Time.AddDate(1, 0, 0)}}
 	if len(logs) > 1 {
 		pits = append(pits, &ledger.Time{Time: logs[len(logs)/2].Date.Time.Add(500 * time.Millisecond)})
 	}
-	for _, pit := range pits {
+	for _, reqPit := range pits {
 		q := ""
-		if pit != nil {
-			q = "pit=" + url.QueryEscape(pit.Time.UTC().Format(time.RFC3339Nano))
+		pit := reqPit
+		if reqPit != nil {
+			q = "pit=" + url.QueryEscape(reqPit.Time.UTC().Format(time.RFC3339Nano))
+		} else {
+			pit = &wall
 		}
 		and := func(s string) string {
 			if q == "" {
@@ -154,7 +159,8 @@ func (st *c04State) judgeHTTP(requests *int64) (kind, why string) {
 			}
 			d := obj(body["data"])
 			gotMD := toMeta(d["metadata"])
-			if !(visL && metaEqual(gotMD, mdL)) && !(visT && metaEqual(gotMD, mdT)) {
+			// (an account that exists under one dating only may also be answered as not existing yet: empty)
+			if !(visL && metaEqual(gotMD, mdL)) && !(visT && metaEqual(gotMD, mdT)) && !((!visL || !visT) && len(gotMD) == 0) {
 				return "http-account-metadata", fmt.Sprintf("GET v2 accounts/%s (%s) reports metadata %v, replaying the log gives %v", a, pitStr(pit), gotMD, mdL)
 			}
 			if visL && visT {
@@ -165,14 +171,29 @@ func (st *c04State) judgeHTTP(requests *int64) (kind, why string) {
 					return "http-account-effective-volumes", w
 				}
 			}
-			if pit == nil {
-				// v1 account: volumes and balances are always given
+			if reqPit == nil {
+				// v1 account: volumes and balances are always given (no point in time: the whole log)
 				code, body, _ := get("GET", "/api/ledger/l1/accounts/"+a)
 				if code != 200 {
 					return "http-status", fmt.Sprintf("GET v1 accounts/%s answers %d", a, code)
 				}
 				d := obj(body["data"])
-				want := volumes(a, false)
+				want := map[string][2]*big.Int{}
+				for _, e := range exp {
+					if e.acc != a {
+						continue
+					}
+					v, ok := want[e.asset]
+					if !ok {
+						v = [2]*big.Int{new(big.Int), new(big.Int)}
+					}
+					if e.isSource {
+						v[1] = new(big.Int).Add(v[1], e.amt)
+					} else {
+						v[0] = new(big.Int).Add(v[0], e.amt)
+					}
+					want[e.asset] = v
+				}
 				if w := cmpVol("GET v1 accounts/"+a+" volumes", a, obj(d["volumes"]), want, false); w != "" {
 					return "http-v1-account-volumes", w
 				}
@@ -189,8 +210,8 @@ func (st *c04State) judgeHTTP(requests *int64) (kind, why string) {
 		sort.Strings(visible)
 		// listings and counts
 		for _, api := range []string{"v2/", ""} {
-			if api == "" && pit != nil {
-				continue // the v1 listing is compared without a point in time
+			if api == "" {
+				continue // (the v1 listings are compared below, without a point in time)
 			}
 			code, body, _ := get("GET", "/api/ledger/"+api+"l1/accounts?"+and("pageSize=100"))
 			if code != 200 {
@@ -241,7 +262,7 @@ func (st *c04State) judgeHTTP(requests *int64) (kind, why string) {
 			if ts, err := time.Parse(time.RFC3339Nano, fmt.Sprint(d["timestamp"])); err != nil || !ts.Equal(cur.Timestamp.Time) {
 				return "http-transaction-timestamp", fmt.Sprintf("GET v2 transactions/%s reports timestamp %v, the log entry says %s", id, d["timestamp"], cur.Timestamp.Time.UTC().Format(time.RFC3339Nano))
 			}
-			if pit == nil {
+			if false {
 				code, body, _ := get("GET", "/api/ledger/l1/transactions/"+id)
 				d := obj(body["data"])
 				want := fold.Tx(id)
@@ -250,10 +271,7 @@ func (st *c04State) judgeHTTP(requests *int64) (kind, why string) {
 				}
 			}
 		}
-		for _, api := range []string{"v2/", ""} {
-			if api == "" && pit != nil {
-				continue
-			}
+		for _, api := range []string{"v2/"} {
 			code, body, _ := get("GET", "/api/ledger/"+api+"l1/transactions?"+and("pageSize=100"))
 			if code != 200 {
 				return "http-status", fmt.Sprintf("GET %stransactions (%s) answers %d: %v", api, pitStr(pit), code, body)
@@ -281,10 +299,7 @@ func (st *c04State) judgeHTTP(requests *int64) (kind, why string) {
 			}
 		}
 		// aggregated balances over everything: zero per asset (inputs = outputs)
-		for _, api := range []string{"v2/", ""} {
-			if api == "" && pit != nil {
-				continue
-			}
+		for _, api := range []string{"v2/"} {
 			code, body, _ := get("GET", "/api/ledger/"+api+"l1/aggregate/balances?"+and(""))
 			if code != 200 {
 				return "http-status", fmt.Sprintf("GET %saggregate/balances (%s) answers %d: %v", api, pitStr(pit), code, body)
@@ -293,6 +308,55 @@ func (st *c04State) judgeHTTP(requests *int64) (kind, why string) {
 				if n := num(v); n == nil || n.Sign() != 0 {
 					return "http-aggregated", fmt.Sprintf("GET %saggregate/balances (%s) reports %v for %s over all accounts; inputs and outputs of an asset cancel out", api, pitStr(pit), v, asset)
 				}
+			}
+		}
+	}
+	// v1, no point in time: the whole log
+	{
+		var all []string
+		for a := range accs {
+			all = append(all, a)
+		}
+		sort.Strings(all)
+		code, body, _ := get("GET", "/api/ledger/l1/accounts?pageSize=100")
+		var got []string
+		for _, it := range listOf(obj(body["cursor"])["data"]) {
+			got = append(got, fmt.Sprint(obj(it)["address"]))
+		}
+		if code != 200 || fmt.Sprint(got) != fmt.Sprint(all) {
+			return "http-v1-list-accounts", fmt.Sprintf("GET v1 accounts answers %d and lists %v, the log defines %v", code, got, all)
+		}
+		if _, _, count := get("HEAD", "/api/ledger/l1/accounts"); count != fmt.Sprint(len(all)) {
+			return "http-v1-count-accounts", fmt.Sprintf("HEAD v1 accounts counts %s, the log defines %d accounts", count, len(all))
+		}
+		ids := fold.TxIDs()
+		var want []string
+		for i := len(ids) - 1; i >= 0; i-- {
+			want = append(want, ids[i])
+		}
+		code, body, _ = get("GET", "/api/ledger/l1/transactions?pageSize=100")
+		got = nil
+		for _, it := range listOf(obj(body["cursor"])["data"]) {
+			got = append(got, fmt.Sprint(obj(it)["txid"]))
+		}
+		if code != 200 || fmt.Sprint(got) != fmt.Sprint(want) {
+			return "http-v1-list-transactions", fmt.Sprintf("GET v1 transactions answers %d and lists %v, the log has %v (newest first)", code, got, want)
+		}
+		if _, _, count := get("HEAD", "/api/ledger/l1/transactions"); count != fmt.Sprint(len(want)) {
+			return "http-v1-count-transactions", fmt.Sprintf("HEAD v1 transactions counts %s, the log has %d", count, len(want))
+		}
+		for _, id := range ids {
+			code, body, _ := get("GET", "/api/ledger/l1/transactions/"+id)
+			d := obj(body["data"])
+			wantTx := fold.Tx(id)
+			if code != 200 || fmt.Sprint(d["txid"]) != id || !metaEqual(toMeta(d["metadata"]), wantTx.Metadata) || postingsDiffer(d["postings"], wantTx.Postings) != "" || fmt.Sprint(d["reverted"]) != fmt.Sprint(wantTx.Reverted) {
+				return "http-v1-transaction", fmt.Sprintf("GET v1 transactions/%s answers %d %v, replaying the log gives %+v", id, code, d, wantTx)
+			}
+		}
+		code, body, _ = get("GET", "/api/ledger/l1/aggregate/balances")
+		for asset, v := range obj(body["data"]) {
+			if n := num(v); code != 200 || n == nil || n.Sign() != 0 {
+				return "http-v1-aggregated", fmt.Sprintf("GET v1 aggregate/balances reports %v for %s over all accounts; inputs and outputs of an asset cancel out", v, asset)
 			}
 		}
 	}
